@@ -17,3 +17,39 @@ package segmenter
 //@   ensures [exhausted] implies(!result, iter.pos > len(iter.src.text) && forall(k, old(iter.pos)+1, len(iter.src.text)+1, iter.src.attributes[k]&iter.flag == 0))
 //@   modifies iter.pos; iter.lastBreak
 //@   loop 1 invariant [scan] old(iter.pos) < iter.pos && iter.lastBreak == old(iter.pos) && forall(k, old(iter.pos)+1, iter.pos, iter.src.attributes[k]&iter.flag == 0)
+//
+// ---------------------------------------------------------------------------------------------
+// Property C06: the cursor's rule state machines follow UAX #29 / UAX #14. Classes are the library's own tables
+// (class pointers are distinct constants, checked from their initialisers). The specifications below are written from
+// the rule text of the standards (regular expressions over class sequences), not from the code.
+//@ trusted std:unicode.Is
+//@   params rangeTab, r
+//@   modifies nothing
+//@ trusted unicodedata.LookupType
+//@   modifies nothing
+//
+// GB12/GB13: "sot (RI RI)* RI x RI" / "[^RI] (RI RI)* RI x RI": break is prohibited between the 1st and 2nd of each pair.
+// isPrevGraphemeRIOdd == "the run of Regional_Indicator characters ending just before the current one has odd length".
+//@ func cursor.updateGraphemeRIOdd C06
+//@   mode int
+//@   ensures [trigger] trigger == (cr.grapheme == ucd.GraphemeBreakRegional_Indicator && old(cr.isPrevGraphemeRIOdd))
+//@   ensures [parity] cr.isPrevGraphemeRIOdd == (cr.grapheme == ucd.GraphemeBreakRegional_Indicator && !old(cr.isPrevGraphemeRIOdd))
+//@   modifies cr.isPrevGraphemeRIOdd
+//
+// GB11: "\p{Extended_Pictographic} Extend* ZWJ x \p{Extended_Pictographic}". State after reading the current character c:
+// 1 if the text read so far ends with ExtPict Extend*, 2 if it ends with ExtPict Extend* ZWJ, else 0; the rule triggers
+// when the state before c is 2 and c is Extended_Pictographic (and c then starts a new ExtPict Extend* sequence).
+// An Extended_Pictographic character is neither Extend nor ZWJ (disjoint tables; checked on the table literals).
+//@ data extPictNotExtendNorZWJ C06 : forall(a, 0, len(ucd.Extended_Pictographic.R16), forall(b, 0, len(ucd.GraphemeBreakExtend.R16), ucd.Extended_Pictographic.R16[a].Hi < ucd.GraphemeBreakExtend.R16[b].Lo || ucd.GraphemeBreakExtend.R16[b].Hi < ucd.Extended_Pictographic.R16[a].Lo)) &&
+//@   | forall(a, 0, len(ucd.Extended_Pictographic.R32), forall(b, 0, len(ucd.GraphemeBreakExtend.R32), ucd.Extended_Pictographic.R32[a].Hi < ucd.GraphemeBreakExtend.R32[b].Lo || ucd.GraphemeBreakExtend.R32[b].Hi < ucd.Extended_Pictographic.R32[a].Lo)) &&
+//@   | forall(a, 0, len(ucd.Extended_Pictographic.R16), forall(b, 0, len(ucd.GraphemeBreakZWJ.R16), ucd.Extended_Pictographic.R16[a].Hi < ucd.GraphemeBreakZWJ.R16[b].Lo || ucd.GraphemeBreakZWJ.R16[b].Hi < ucd.Extended_Pictographic.R16[a].Lo)) &&
+//@   | len(ucd.GraphemeBreakZWJ.R32) == 0
+//@ func cursor.updatePictoSequence C06
+//@   mode int
+//@   requires cr.pictoSequence <= 2
+//@   requires [data-extPictNotExtendNorZWJ] implies(cr.isExtentedPic, cr.grapheme != ucd.GraphemeBreakExtend && cr.grapheme != ucd.GraphemeBreakZWJ)
+//@   ensures [trigger] result == (old(cr.pictoSequence) == 2 && cr.isExtentedPic)
+//@   ensures [next-state] cr.pictoSequence == ite(cr.isExtentedPic, pictoSequenceState(1),
+//@     | ite(old(cr.pictoSequence) == 1 && cr.grapheme == ucd.GraphemeBreakExtend, pictoSequenceState(1),
+//@     | ite(old(cr.pictoSequence) == 1 && cr.grapheme == ucd.GraphemeBreakZWJ, pictoSequenceState(2), pictoSequenceState(0))))
+//@   modifies cr.pictoSequence
